@@ -25,7 +25,7 @@ CONSTANTS N, I, SuspT, D, Lo, Hi, K,
 
 Node == 1..N
 P == [n |-> N, I |-> I, half |-> I \div 2, S |-> SuspT, D |-> D, Lo |-> Lo, Hi |-> Hi, K |-> K,
-      bound |-> D + Hi + I]
+      bound |-> D + Hi + I + (N - 1) * OffStep]     \* + the latest start(): rounds count from there
 ASSUME 2 * D < P.half
 
 VARIABLES nd, nt, msgs, now, stopped, stopAt, cut, lied, dinc, ninj, nslow, fresh, act
